@@ -509,9 +509,13 @@ mod std {
                 BitAnd::bitand,
                 BitOr::bitor,
                 BitXor::bitxor,
-                Shl::shl,
-                Shr::shr,
             }
+            // `<<` and `>>` panic in builds with overflow checks if the shift amount is not less
+            // than the bit width, use the wrapping variants (which is what `<<`/`>>` do otherwise)
+            #[allow(non_upper_case_globals)]
+            pub const shl: fn(l: $typ, r: $typ) -> $typ = |l, r| l.wrapping_shl(r as u32);
+            #[allow(non_upper_case_globals)]
+            pub const shr: fn(l: $typ, r: $typ) -> $typ = |l, r| l.wrapping_shr(r as u32);
         };
     }
 
@@ -542,7 +546,7 @@ mod std {
         #[allow(non_upper_case_globals)]
         pub const arithmetic_shr: fn(l: VmInt, r: VmInt) -> VmInt = shr;
         #[allow(non_upper_case_globals)]
-        pub const logical_shr: fn(l: u64, r: u64) -> u64 = ::std::ops::Shr::shr;
+        pub const logical_shr: fn(l: u64, r: u64) -> u64 = |l, r| l.wrapping_shr(r as u32);
     }
     pub mod float {
         pub type prim = f64;
@@ -656,7 +660,7 @@ pub fn load_byte(vm: &Thread) -> Result<ExternModule> {
             from_le => primitive!(1, std::byte::prim::from_le),
             to_be => primitive!(1, std::byte::prim::to_be),
             to_le => primitive!(1, std::byte::prim::to_le),
-            pow => primitive!(2, std::byte::prim::pow),
+            pow => primitive!(2, "std::byte::prim::pow", std::byte::prim::wrapping_pow),
             saturating_add => primitive!(2, std::byte::prim::saturating_add),
             saturating_sub => primitive!(2, std::byte::prim::saturating_sub),
             saturating_mul => primitive!(2, std::byte::prim::saturating_mul),
@@ -703,8 +707,8 @@ pub fn load_int(vm: &Thread) -> Result<ExternModule> {
             from_le => primitive!(1, std::int::prim::from_le),
             to_be => primitive!(1, std::int::prim::to_be),
             to_le => primitive!(1, std::int::prim::to_le),
-            pow => primitive!(2, std::int::prim::pow),
-            abs => primitive!(1, std::int::prim::abs),
+            pow => primitive!(2, "std::int::prim::pow", std::int::prim::wrapping_pow),
+            abs => primitive!(1, "std::int::prim::abs", std::int::prim::wrapping_abs),
             rem => primitive!(2, "std::int::prim::rem", int::rem),
             rem_euclid => primitive!(2, "std::int::prim::rem_euclid", int::rem_euclid),
             checked_rem => primitive!(2, std::int::prim::checked_rem),
